@@ -415,7 +415,7 @@ Definition K1 (cfg : chan_cfg) (o : op_opts) : bytes -> prog bytes :=
   fun _ => Write (c_ret cfg) false (Until (prompt_cond cfg o) (K2 cfg o) Fail).
 
 Definition skips (o : op_opts) (c : bytes) : bool :=
-  match c, o_exact o with [], false => true | _, _ => false end.
+  match c with [] => true | _ => false end.
 
 Lemma scp_cons (cfg : chan_cfg) (o : op_opts) (c : bytes) (rest : list bytes) :
   send_commands_prog cfg o (c :: rest) = bind (send_input cfg c o) (Hk cfg o rest).
@@ -427,11 +427,11 @@ Proof. destruct o as [st ea ex im co]. cbn [o_eager]. intros ->. reflexivity. Qe
 
 Lemma until_echo_skip {R} (o : op_opts) (c : bytes) (k : bytes -> prog R) :
   skips o c = true -> until_echo o c k = k [].
-Proof. unfold skips, until_echo. destruct c, (o_exact o); intros H; try discriminate; reflexivity. Qed.
+Proof. unfold skips, until_echo. destruct c; intros H; try discriminate; reflexivity. Qed.
 
 Lemma until_echo_noskip {R} (o : op_opts) (c : bytes) (k : bytes -> prog R) :
   skips o c = false -> until_echo o c k = Until (echo_cond o c) k Fail.
-Proof. unfold skips, until_echo. destruct c, (o_exact o); intros H; try discriminate; reflexivity. Qed.
+Proof. unfold skips, until_echo. destruct c; intros H; try discriminate; reflexivity. Qed.
 
 Lemma wrapl_write fs b r k : wrapl fs (Write b r k) = Write b r (wrapl fs k).
 Proof.
@@ -567,7 +567,7 @@ Proof.
   rewrite forallb_forall in Hecho, Hres.
   repeat split; try assumption.
   - intros st Hin. specialize (Hecho st Hin). cbv zeta in Hecho. unfold skips.
-    destruct (x_cmd x) as [|c0 cs]; destruct (o_exact o); try exact Hecho.
+    destruct (x_cmd x) as [|c0 cs]; try exact Hecho.
     destruct (st ++ drop_cr (x_echo x)); [reflexivity | discriminate].
   - intros j Hj. apply beqb_eq. apply Hres. rewrite in_seq. lia.
 Qed.
